@@ -1769,6 +1769,619 @@ GENERATORS["Biccs"] = gen_biccs
 
 
 # ---------------------------------------------------------------------------------------------------------
+# conversion.to_stable: everything before the twelve-column format statement, statement by statement (C01, C02):
+# the path split, the token loop (orientation bookkeeping, `nodes[nd]`), `out_node = [node_list[0]]`, the merge loop,
+# StableNode.to_string, the single-reference-interval test and both of its branches, and what columns 5-9 print.
+# `merge_nodes` itself is Gen/MergeNodes.lean (called, not re-translated).
+
+T_STR, T_STRING, T_INT, T_NAT, T_BOOL, T_ORIENT, T_STRAND, T_SNODE = "Str", "String", "Int", "Nat", "Bool", "Orient", "Strand", "SNode"
+T_MERGE = ("Merge",)                     # what merge_nodes returns: False (none) or [node, orient]
+T_OIV = ("Pair", T_SNODE, T_ORIENT)      # [StableNode, orientation], orientation Bool-encoded ('>' = true)
+T_RAWIV = ("Pair", T_SNODE, ("Opt", T_STR))   # [StableNode, orient] with `orient` as the Python value (None or a string)
+_LEAN_RESERVED = {"end", "at", "from", "do", "then", "else", "fun", "open", "in", "let", "have", "show", "with", "match", "if", "by",
+                  "where", "def", "theorem", "instance", "structure", "class", "namespace", "section", "import", "return", "for",
+                  "unless", "mut", "some", "none", "true", "false", "st", "Type", "Prop", "Sort"}
+
+
+def _lt(t):
+    """Lean type of a translation type"""
+    if t in (T_BOOL, T_ORIENT, T_STRAND):
+        return "Bool"
+    if t in (T_STR, T_STRING, T_INT, T_NAT, T_SNODE):
+        return t
+    if t == T_MERGE:
+        return "Option (SNode × Bool)"
+    if t[0] == "Opt":
+        return "Option %s" % _lt_atom(t[1])
+    if t[0] == "List":
+        return "List %s" % _lt_atom(t[1])
+    if t[0] == "Pair":
+        return "%s × %s" % (_lt_atom(t[1]), _lt_atom(t[2]))
+    if t[0] == "Dict":
+        return "%s → Option %s" % (_lt_atom(t[1]), _lt_atom(t[2]))
+    if t[0] == "Set":
+        return "List %s" % _lt_atom(t[1])
+    raise Untranslatable("type %s" % (t,))
+
+
+def _lt_atom(t):
+    s = _lt(t)
+    return s if " " not in s else "(%s)" % s
+
+
+def _chars(s):
+    def one(c):
+        if c == "'":
+            return "'\\''"
+        if c == "\\":
+            return "'\\\\'"
+        if c == "\t":
+            return "'\\t'"
+        if c == "\n":
+            return "'\\n'"
+        if not (32 <= ord(c) < 127):
+            raise Untranslatable("character %r in a string constant" % c)
+        return "'%s'" % c
+    return "[" + ", ".join(one(c) for c in s) + "]"
+
+
+class _PyLean:
+    """typed translation of a small statement language into Lean terms of type `Option _` (`none` = the Python raises).
+    Every Python variable is a Lean variable of the same name, re-bound by `let` on assignment; a subscript that can raise
+    (`l[0]`, `l[-1]`, `l[i + 1]`, `d[k]`) is bound by a `match … with | none => none | some v =>` in evaluation order."""
+
+    def __init__(self, mod, fields, attrs, loop_names):
+        self.mod = mod
+        self.fields = fields          # attribute of a StableNode -> (lean projection, type)
+        self.attrs = attrs            # (object, attribute) -> (lean variable, type)
+        self.loop_names = list(loop_names)
+        self.defs = []
+        self.k = 0
+        self.seps = None
+        self.reserved = set()
+
+    # ---- helpers
+    def fresh(self):
+        self.k += 1
+        return "v%d" % self.k
+
+    def bind(self, term, binds):
+        for v, t in binds:
+            if t == term:
+                return v
+        v = self.fresh()
+        binds.append((v, term))
+        return v
+
+    def coerce(self, t, have, want, binds):
+        if have == want:
+            return t
+        if have == T_STRING and want == T_STR:
+            return "%s.toList" % t
+        if have == T_STR and want == T_STRING:
+            return "(String.ofList %s)" % t
+        if have == T_NAT and want == T_INT:
+            return "(%s : Int)" % t
+        if isinstance(want, tuple) and want[0] == "Opt" and not (isinstance(have, tuple) and have[0] == "Opt"):
+            return "(some %s)" % self.coerce(t, have, want[1], binds)
+        if isinstance(have, tuple) and have[0] == "Opt" and have[1] == want and want == T_INT:
+            return self.bind(t, binds)          # None where an int is needed: TypeError
+        raise Untranslatable("a value of type %s where %s is needed (%s)" % (have, want, t))
+
+    def ex(self, e, env, binds, expect=None):
+        t, ty = self._ex(e, env, binds, expect)
+        if expect is not None:
+            return self.coerce(t, ty, expect, binds), expect
+        return t, ty
+
+    def _const(self, e, expect):
+        v = e.value
+        base = expect[1] if isinstance(expect, tuple) and expect[0] == "Opt" else expect
+        if v is None:
+            if isinstance(expect, tuple) and expect[0] == "Opt":
+                return "none", expect
+            raise Untranslatable("None where %s is expected" % (expect,))
+        if isinstance(v, bool):
+            return ("true" if v else "false"), T_BOOL
+        if isinstance(v, int):
+            if base == T_NAT:
+                return str(v), T_NAT
+            return "(%d : Int)" % v, T_INT
+        if isinstance(v, str):
+            if base == T_ORIENT:
+                if v in (">", "<"):
+                    return ("true" if v == ">" else "false"), T_ORIENT
+                raise Untranslatable("orientation constant %r" % v)
+            if base == T_STRAND:
+                if v in ("+", "-"):
+                    return ("true" if v == "+" else "false"), T_STRAND
+                raise Untranslatable("strand constant %r" % v)
+            if base == T_STRING:
+                return "(String.ofList %s)" % _chars(v), T_STRING
+            return _chars(v), T_STR
+        raise Untranslatable("constant %r" % (v,))
+
+    def _split_call(self, e, env, binds):
+        """list(filter(None, re.split("(c)|(d)…", S)))"""
+        if not (isinstance(e, ast.Call) and ast.unparse(e.func) == "list" and len(e.args) == 1 and not e.keywords):
+            return None
+        f = e.args[0]
+        if not (isinstance(f, ast.Call) and ast.unparse(f.func) == "filter" and len(f.args) == 2 and ast.unparse(f.args[0]) == "None"):
+            return None
+        s = f.args[1]
+        if not (isinstance(s, ast.Call) and ast.unparse(s.func) == "re.split" and len(s.args) == 2 and not s.keywords
+                and isinstance(s.args[0], ast.Constant) and isinstance(s.args[0].value, str)):
+            raise Untranslatable("path split: %s" % ast.unparse(e))
+        seps = []
+        for alt in s.args[0].value.split("|"):
+            if not (len(alt) == 3 and alt[0] == "(" and alt[2] == ")" and alt[1] not in ".^$*+?{}[]\\|()"):
+                raise Untranslatable("split pattern %r" % s.args[0].value)
+            seps.append(alt[1])
+        if self.seps is not None:
+            raise Untranslatable("two path splits")
+        self.seps = seps
+        arg, _ = self.ex(s.args[1], env, binds, T_STR)
+        return "(splitKeep pathSeps %s)" % arg, ("List", T_STR)
+
+    def _ex(self, e, env, binds, expect):
+        u = ast.unparse(e)
+        if isinstance(e, ast.Constant):
+            return self._const(e, expect)
+        if isinstance(e, ast.Name):
+            if e.id in env:
+                return e.id, env[e.id]
+            raise Untranslatable("name %s" % e.id)
+        if isinstance(e, ast.Attribute) and isinstance(e.value, ast.Name) and (e.value.id, e.attr) in self.attrs:
+            v, ty = self.attrs[(e.value.id, e.attr)]
+            if v not in env:
+                raise Untranslatable("attribute %s" % u)
+            return v, env[v]
+        if isinstance(e, ast.Attribute):
+            o, ty = self.ex(e.value, env, binds)
+            if ty == T_SNODE and e.attr in self.fields:
+                return "%s.%s" % (o, self.fields[e.attr][0]), self.fields[e.attr][1]
+            raise Untranslatable("attribute %s" % u)
+        if isinstance(e, ast.Subscript):
+            o, ty = self.ex(e.value, env, binds)
+            sl = e.slice
+            if isinstance(ty, tuple) and ty[0] == "Pair":
+                if isinstance(sl, ast.Constant) and sl.value in (0, 1) and not isinstance(sl.value, bool):
+                    return "%s.%d" % (o, sl.value + 1), ty[1 + sl.value]
+                raise Untranslatable("index of a pair: %s" % u)
+            if isinstance(ty, tuple) and ty[0] == "List":
+                if isinstance(sl, ast.UnaryOp) and isinstance(sl.op, ast.USub) and isinstance(sl.operand, ast.Constant) and sl.operand.value == 1:
+                    return self.bind("%s.getLast?" % o, binds), ty[1]
+                if isinstance(sl, ast.Slice):
+                    raise Untranslatable("slice %s" % u)
+                i, _ = self.ex(sl, env, binds, T_NAT)       # a negative constant is refused by the Nat typing
+                return self.bind("%s[%s]?" % (o, i), binds), ty[1]
+            if isinstance(ty, tuple) and ty[0] == "Dict":
+                k, _ = self.ex(sl, env, binds, ty[1])
+                return self.bind("%s %s" % (o, k), binds), ty[2]
+            raise Untranslatable("subscript %s" % u)
+        if isinstance(e, ast.List):
+            if isinstance(expect, tuple) and expect[0] == "Pair" and len(e.elts) == 2:
+                a, _ = self.ex(e.elts[0], env, binds, expect[1])
+                b, _ = self.ex(e.elts[1], env, binds, expect[2])
+                return "(%s, %s)" % (a, b), expect
+            if isinstance(expect, tuple) and expect[0] == "List":
+                xs = [self.ex(x, env, binds, expect[1])[0] for x in e.elts]
+                return "[%s]" % ", ".join(xs), expect
+            raise Untranslatable("list display %s where %s is expected" % (u, expect))
+        if isinstance(e, ast.BinOp) and type(e.op) in (ast.Add, ast.Sub):
+            a, ta = self.ex(e.left, env, binds, T_NAT if expect == T_NAT else None)
+            if ta == T_STR and isinstance(e.op, ast.Add):
+                b, _ = self.ex(e.right, env, binds, T_STR)
+                return "(%s ++ %s)" % (a, b), T_STR
+            if ta == T_NAT:
+                b, _ = self.ex(e.right, env, binds, T_NAT)
+                return "(%s %s %s)" % (a, "+" if isinstance(e.op, ast.Add) else "-", b), T_NAT
+            a = self.coerce(a, ta, T_INT, binds)
+            b, _ = self.ex(e.right, env, binds, T_INT)
+            return "(%s %s %s)" % (a, "+" if isinstance(e.op, ast.Add) else "-", b), T_INT
+        if isinstance(e, ast.BoolOp):
+            parts = []
+            for i, x in enumerate(e.values):
+                n = len(binds)
+                parts.append(self.ex(x, env, binds, T_BOOL)[0])
+                if i > 0 and len(binds) > n:
+                    raise Untranslatable("an operand of %s that can raise is evaluated conditionally" % u)
+            return "(" + (" && " if isinstance(e.op, ast.And) else " || ").join(parts) + ")", T_BOOL
+        if isinstance(e, ast.UnaryOp) and isinstance(e.op, ast.Not):
+            a, ta = self.ex(e.operand, env, binds)
+            if ta == T_BOOL:
+                return "(!%s)" % a, T_BOOL
+            if ta == ("Opt", T_STR):
+                return "(!truthy %s)" % a, T_BOOL
+            raise Untranslatable("truth value of %s" % ast.unparse(e.operand))
+        if isinstance(e, ast.Compare) and len(e.ops) == 1:
+            l, r, op = e.left, e.comparators[0], type(e.ops[0])
+            if op in (ast.In, ast.NotIn):
+                a, ta = self.ex(l, env, binds)             # Python evaluates the left operand first
+                b, tb = self.ex(r, env, binds)
+                if not (isinstance(tb, tuple) and tb[0] == "Set"):
+                    raise Untranslatable("membership in %s" % ast.unparse(r))
+                a = self.coerce(a, ta, tb[1], binds)
+                c = "(%s.contains %s)" % (b, a)
+                return (c if op is ast.In else "(!%s)" % c), T_BOOL
+            if op in (ast.Is, ast.IsNot) and isinstance(r, ast.Constant) and r.value is None:
+                a, ta = self.ex(l, env, binds)
+                if isinstance(ta, tuple) and ta[0] == "Opt":
+                    return ("%s.isNone" if op is ast.Is else "%s.isSome") % a, T_BOOL
+                raise Untranslatable("test %s" % u)
+            if isinstance(l, ast.Constant) and not isinstance(r, ast.Constant):
+                b, tb = self.ex(r, env, [], None)          # typing pass only
+                a, _ = self.ex(l, env, binds, tb)
+                b, _ = self.ex(r, env, binds, tb)
+                ty = tb
+            else:
+                a, ty = self.ex(l, env, binds)
+                b, _ = self.ex(r, env, binds, ty)
+            if op in (ast.Eq, ast.NotEq):
+                if ty not in (T_STR, T_STRING, T_INT, T_NAT, T_BOOL, T_ORIENT, T_STRAND, ("Opt", T_STR)):
+                    raise Untranslatable("comparison %s" % u)
+                return "(%s %s %s)" % (a, "==" if op is ast.Eq else "!=", b), T_BOOL
+            sym = {ast.Lt: "<", ast.Gt: ">", ast.LtE: "≤", ast.GtE: "≥"}.get(op)
+            if sym and ty in (T_INT, T_NAT):
+                return "decide (%s %s %s)" % (a, sym, b), T_BOOL
+            raise Untranslatable("comparison %s" % u)
+        if isinstance(e, ast.Call) and not e.keywords:
+            sp = self._split_call(e, env, binds)
+            if sp is not None:
+                return sp
+            f = ast.unparse(e.func)
+            if f == "len" and len(e.args) == 1:
+                a, ta = self.ex(e.args[0], env, binds)
+                if isinstance(ta, tuple) and ta[0] == "List":
+                    return "%s.length" % a, T_NAT
+                raise Untranslatable("len of %s" % ast.unparse(e.args[0]))
+            if f == "merge_nodes" and len(e.args) == 4 and "merge_nodes" not in env:
+                m = find_func(self.mod, "merge_nodes")
+                if len(m.args.args) != 4:
+                    raise Untranslatable("merge_nodes arity")
+                xs = [self.ex(x, env, binds, ty)[0] for x, ty in zip(e.args, (T_SNODE, T_SNODE, T_ORIENT, T_ORIENT))]
+                return "(Gaftools.Gen.mergeNodes %s)" % " ".join(xs), T_MERGE
+            if isinstance(e.func, ast.Attribute) and e.func.attr == "to_string" and len(e.args) == 1:
+                o, to = self.ex(e.func.value, env, binds)
+                if to != T_SNODE:
+                    raise Untranslatable("to_string of %s" % ast.unparse(e.func.value))
+                a, _ = self.ex(e.args[0], env, binds, T_ORIENT)
+                return "(toStr %s %s)" % (o, a), T_STR
+        raise Untranslatable("expression %s" % u)
+
+    # ---- statements
+    @staticmethod
+    def wrap(binds, pad, inner):
+        """inner: pad -> text"""
+        out = []
+        for v, t in binds:
+            out.append("%smatch %s with\n%s| none => none\n%s| some %s =>" % (pad, t, pad, pad, v))
+        return "\n".join(out + [inner(pad)])
+
+    def target_name(self, t):
+        """the variable an assignment target updates"""
+        if isinstance(t, ast.Name):
+            return t.id
+        if isinstance(t, ast.Attribute) and isinstance(t.value, ast.Name) and (t.value.id, t.attr) in self.attrs:
+            return self.attrs[(t.value.id, t.attr)][0]
+        if isinstance(t, ast.Subscript) and isinstance(t.value, ast.Name):
+            return t.value.id
+        raise Untranslatable("assignment target %s" % ast.unparse(t))
+
+    def assigned(self, stmts):
+        out = []
+
+        def add(n):
+            if n not in out:
+                out.append(n)
+        for st in stmts:
+            if isinstance(st, ast.Assign):
+                for t in st.targets:
+                    add(self.target_name(t))
+            elif isinstance(st, ast.AugAssign):
+                add(self.target_name(st.target))
+            elif isinstance(st, ast.Expr) and isinstance(st.value, ast.Call) and isinstance(st.value.func, ast.Attribute) \
+                    and st.value.func.attr == "append" and isinstance(st.value.func.value, ast.Name):
+                add(st.value.func.value.id)
+            elif isinstance(st, ast.If):
+                for n in self.assigned(st.body) + self.assigned(st.orelse):
+                    add(n)
+            elif isinstance(st, (ast.Continue, ast.Pass)) or (isinstance(st, ast.Expr) and isinstance(st.value, ast.Constant)):
+                pass
+            else:
+                raise Untranslatable("statement %s" % ast.unparse(st)[:70])
+        return out
+
+    def merge_test(self, test, env):
+        """`X is False` / `X == False` / `not X` (-> True) and `X is not False` / `X != False` / `X` (-> False) for the result of merge_nodes"""
+        if isinstance(test, ast.Name) and env.get(test.id) == T_MERGE:
+            return test.id, False
+        if isinstance(test, ast.UnaryOp) and isinstance(test.op, ast.Not) and isinstance(test.operand, ast.Name) and env.get(test.operand.id) == T_MERGE:
+            return test.operand.id, True
+        if (isinstance(test, ast.Compare) and len(test.ops) == 1 and isinstance(test.left, ast.Name) and env.get(test.left.id) == T_MERGE
+                and isinstance(test.comparators[0], ast.Constant) and test.comparators[0].value is False):
+            if isinstance(test.ops[0], (ast.Is, ast.Eq)):
+                return test.left.id, True
+            if isinstance(test.ops[0], (ast.IsNot, ast.NotEq)):
+                return test.left.id, False
+        return None
+
+    def blk(self, stmts, env, ind, fall, decl):
+        """stmts -> Lean text of type `Option _`; `fall(env, ind)` = text for leaving the block (end of the body / `continue`);
+        `decl` = declared types of the function's variables (a temporary takes the type of its first value)"""
+        pad = " " * ind
+        if not stmts:
+            return fall(env, ind)
+        st, rest = stmts[0], stmts[1:]
+        u = ast.unparse(st)
+        if (isinstance(st, ast.Expr) and isinstance(st.value, ast.Constant)) or isinstance(st, ast.Pass):
+            return self.blk(rest, env, ind, fall, decl)
+        if isinstance(st, ast.Continue):
+            return fall(env, ind)
+        binds = []
+
+        def let(name, ty, term):
+            if name in _LEAN_RESERVED or name.startswith("_") or re.fullmatch(r"v\d+", name):
+                raise Untranslatable("variable name %s" % name)
+            env2 = dict(env)
+            env2[name] = ty
+            return self.wrap(binds, pad, lambda p: "%slet %s : %s := %s\n%s" % (p, name, _lt(ty), term, self.blk(rest, env2, ind, fall, decl)))
+        if isinstance(st, ast.Assign) and len(st.targets) == 1:
+            t = st.targets[0]
+            name = self.target_name(t)
+            if isinstance(t, ast.Subscript):
+                # X[-1] = value
+                ty = env.get(name)
+                if not (isinstance(ty, tuple) and ty[0] == "List" and ast.unparse(t.slice) == "-1"):
+                    raise Untranslatable("assignment %s" % u)
+                v, _ = self.ex(st.value, env, binds, ty[1])
+                binds.append((name, "setLast %s %s" % (name, v)))
+                return self.wrap(binds, pad, lambda p: self.blk(rest, env, ind, fall, decl))
+            if isinstance(t, ast.Attribute):
+                ty = self.attrs[(t.value.id, t.attr)][1]
+                v, _ = self.ex(st.value, env, binds, ty)
+                return let(name, ty, v)
+            if name in self.reserved:
+                raise Untranslatable("assignment to %s" % name)
+            if name in decl:
+                v, _ = self.ex(st.value, env, binds, decl[name])
+                return let(name, decl[name], v)
+            v, ty = self.ex(st.value, env, binds)
+            if name in env and env[name] != ty:
+                raise Untranslatable("%s changes its type" % name)
+            return let(name, ty, v)
+        if isinstance(st, ast.AugAssign) and isinstance(st.op, ast.Add) and isinstance(st.target, ast.Name) and env.get(st.target.id) == T_STR:
+            cur = st.target.id
+            v, _ = self.ex(st.value, env, binds, T_STR)
+            return let(cur, T_STR, "(%s ++ %s)" % (cur, v))
+        if (isinstance(st, ast.Expr) and isinstance(st.value, ast.Call) and isinstance(st.value.func, ast.Attribute) and st.value.func.attr == "append"
+                and isinstance(st.value.func.value, ast.Name) and len(st.value.args) == 1 and not st.value.keywords):
+            name = st.value.func.value.id
+            ty = env.get(name)
+            if not (isinstance(ty, tuple) and ty[0] == "List"):
+                raise Untranslatable("append to %s" % name)
+            v, _ = self.ex(st.value.args[0], env, binds, ty[1])
+            return let(name, ty, "(%s ++ [%s])" % (name, v))
+        if isinstance(st, ast.If):
+            mt = self.merge_test(st.test, env)
+            if mt is not None:
+                name, is_false = mt
+                a, b = (st.body, st.orelse) if is_false else (st.orelse, st.body)
+                env2 = dict(env)
+                env2[name] = T_OIV
+                return "%smatch %s with\n%s| none => (\n%s)\n%s| some %s =>\n%s" % (
+                    pad, name, pad, self.blk(a + rest, env, ind + 4, fall, decl), pad, name, self.blk(b + rest, env2, ind + 4, fall, decl))
+            t = st.test
+            if isinstance(t, ast.BoolOp) and len(t.values) >= 2:
+                # short-circuit evaluation of an operand that can raise: `if a and b: X else: Y` = `if a: (if b: X else: Y) else: Y`
+                later = []
+                for x in t.values[1:]:
+                    self.ex(x, env, later, T_BOOL)
+                if later:
+                    tail = t.values[1] if len(t.values) == 2 else ast.BoolOp(op=t.op, values=t.values[1:])
+                    if isinstance(t.op, ast.And):
+                        new = ast.If(test=t.values[0], body=[ast.If(test=tail, body=st.body, orelse=st.orelse)], orelse=st.orelse)
+                    else:
+                        new = ast.If(test=t.values[0], body=st.body, orelse=[ast.If(test=tail, body=st.body, orelse=st.orelse)])
+                    return self.blk([new] + rest, env, ind, fall, decl)
+            c, _ = self.ex(t, env, binds, T_BOOL)
+            return self.wrap(binds, pad, lambda p: "%sif %s then\n%s\n%selse\n%s" % (
+                p, c, self.blk(st.body + rest, env, ind + 2, fall, decl), p, self.blk(st.orelse + rest, env, ind + 2, fall, decl)))
+        if isinstance(st, ast.For):
+            return self.loop(st, rest, env, ind, fall, decl)
+        raise Untranslatable("statement %s" % u[:70])
+
+    def loop(self, st, rest, env, ind, fall, decl):
+        pad = " " * ind
+        if not self.loop_names or st.orelse or not isinstance(st.target, ast.Name):
+            raise Untranslatable("loop %s" % ast.unparse(st)[:60])
+        fname = self.loop_names.pop(0)
+        var = st.target.id
+        binds = []
+        it = st.iter
+        if isinstance(it, ast.Call) and ast.unparse(it.func) == "range" and len(it.args) == 1 and not it.keywords:
+            n, _ = self.ex(it.args[0], env, binds, T_NAT)
+            iter_term, vty = "(List.range %s)" % n, T_NAT
+        else:
+            iter_term, ity = self.ex(it, env, binds)
+            if not (isinstance(ity, tuple) and ity[0] == "List"):
+                raise Untranslatable("loop over %s" % ast.unparse(it))
+            vty = ity[1]
+        if binds:
+            raise Untranslatable("loop range can raise: %s" % ast.unparse(it))
+        carried = [v for v in self.assigned(st.body) if v in env]
+        if not carried or var in env:
+            raise Untranslatable("loop state of %s" % fname)
+        free = []
+        for n in ast.walk(ast.Module(body=st.body, type_ignores=[])):
+            if isinstance(n, ast.Name) and isinstance(n.ctx, ast.Load):
+                v = n.id
+            elif isinstance(n, ast.Attribute) and isinstance(n.value, ast.Name) and (n.value.id, n.attr) in self.attrs:
+                v = self.attrs[(n.value.id, n.attr)][0]
+            else:
+                continue
+            if v in env and v not in carried and v not in free:
+                free.append(v)
+        free.sort(key=lambda v: list(env).index(v))
+
+        def proj(i):
+            if len(carried) == 1:
+                return "st"
+            return "st" + ".2" * i + (".1" if i < len(carried) - 1 else "")
+
+        def pack(e, ind2):
+            for v in carried:
+                if e.get(v) != env[v]:
+                    raise Untranslatable("%s changes its type in the loop" % v)
+            return " " * ind2 + "some " + (carried[0] if len(carried) == 1 else "(" + ", ".join(carried) + ")")
+        benv = {v: env[v] for v in free + carried}
+        benv[var] = vty
+        body = self.blk(st.body, benv, 2, pack, decl)
+        sty = " × ".join(_lt_atom(env[v]) for v in carried)
+        self.defs.append((fname, "def %s %s(st : %s) (%s : %s) : Option (%s) :=\n%s\n%s" % (
+            fname, "".join("(%s : %s) " % (v, _lt(env[v])) for v in free), sty, var, _lt(vty), sty,
+            "\n".join("  let %s : %s := %s" % (v, _lt(env[v]), proj(i)) for i, v in enumerate(carried)), body)))
+        pat = carried[0] if len(carried) == 1 else "(" + ", ".join(carried) + ")"
+        env2 = dict(env)
+        glue = ""
+        for v in carried:
+            if env[v] == ("List", T_RAWIV):
+                # from here on an orientation is its Bool encoding ('>' = true), the convention of Gen.mergeNodes
+                glue += "%slet %s : %s := %s.map (fun x => (x.1, encOrient x.2))\n" % (pad, v, _lt(("List", T_OIV)), v)
+                env2[v] = ("List", T_OIV)
+        return "%smatch %s.foldlM (%s) %s with\n%s| none => none\n%s| some %s =>\n%s%s" % (
+            pad, iter_term, " ".join([fname] + free), pat, pad, pad, pat, glue, self.blk(rest, env2, ind, fall, decl))
+
+
+def _to_string_def(mod, fields):
+    """StableNode.to_string: `return FORMAT % (args)` with %s / %d placeholders"""
+    init = find_func(mod, "__init__", cls="StableNode")
+    params = [a.arg for a in init.args.args]
+    stores = sorted(ast.unparse(st) for st in init.body if not (isinstance(st, ast.Expr) and isinstance(st.value, ast.Constant)))
+    if params[1:] != list(fields) or stores != sorted("self.%s = %s" % (f, f) for f in fields):
+        raise Untranslatable("StableNode.__init__ does not store %s" % list(fields))
+    fn = find_func(mod, "to_string", cls="StableNode")
+    args = [a.arg for a in fn.args.args]
+    body = [st for st in fn.body if not (isinstance(st, ast.Expr) and isinstance(st.value, ast.Constant))]
+    if len(args) != 2 or len(body) != 1 or not isinstance(body[0], ast.Return):
+        raise Untranslatable("to_string shape")
+    v = body[0].value
+    if not (isinstance(v, ast.BinOp) and isinstance(v.op, ast.Mod) and isinstance(v.left, ast.Constant) and isinstance(v.left.value, str)):
+        raise Untranslatable("to_string is not a format expression")
+    vals = list(v.right.elts) if isinstance(v.right, ast.Tuple) else [v.right]
+    tr = _PyLean(mod, fields, {}, [])
+    env = {args[0]: T_SNODE, args[1]: T_ORIENT}
+    parts, k = [], 0
+    for lit, ph in re.findall(r"([^%]+)|(%.)", v.left.value):
+        if lit:
+            parts.append(_chars(lit))
+            continue
+        if ph not in ("%s", "%d") or k >= len(vals):
+            raise Untranslatable("to_string placeholder %s" % ph)
+        binds = []
+        t, ty = tr.ex(vals[k], env, binds)
+        k += 1
+        if binds:
+            raise Untranslatable("to_string argument")
+        if ph == "%d" and ty == T_INT:
+            parts.append("decI %s" % t)
+        elif ph == "%s" and ty == T_ORIENT:
+            parts.append("(if %s then %s else %s)" % (t, _chars(">"), _chars("<")))
+        elif ph == "%s" and ty == T_STRING:
+            parts.append("%s.toList" % t)
+        elif ph == "%s" and ty == T_STR:
+            parts.append(t)
+        else:
+            raise Untranslatable("to_string prints %s with %s" % (ast.unparse(vals[k - 1]), ph))
+    if k != len(vals) or not parts:
+        raise Untranslatable("to_string arguments")
+    return "def toStr (%s : SNode) (%s : Bool) : Str :=\n  %s" % (args[0], args[1], " ++ ".join(parts))
+
+
+CONV_LOOP_S_PRELUDE = """/-- `list(filter(None, re.split("(c)|(d)…", s)))` for single-character alternatives: every separator as a string of its own,
+    the maximal runs between them, no empty strings -/
+def splitKeepAux (seps : List Char) : Str → Str → List Str
+  | [], cur => if cur.isEmpty then [] else [cur.reverse]
+  | c :: cs, cur =>
+    if seps.contains c then (if cur.isEmpty then [] else [cur.reverse]) ++ [c] :: splitKeepAux seps cs []
+    else splitKeepAux seps cs (c :: cur)
+def splitKeep (seps : List Char) (s : Str) : List Str := splitKeepAux seps s []
+/-- truth value of `None` / a string -/
+def truthy (o : Option Str) : Bool := match o with | none => false | some s => !s.isEmpty
+/-- `l[-1] = v` (IndexError on the empty list) -/
+def setLast {α : Type} (l : List α) (v : α) : Option (List α) := if l.isEmpty then none else some (l.dropLast ++ [v])
+/-- the Bool encoding of an orientation string ('>' = true), as in Gen.mergeNodes -/
+def encOrient (o : Option Str) : Bool := o == some ['>']
+"""
+
+
+def gen_conv_loop_s():
+    _, src = src_of("gaftools/conversion.py")
+    mod = ast.parse(src)
+    fn = find_func(mod, "to_stable")
+    args = [a.arg for a in fn.args.args]
+    if args != ["gaf_line", "nodes", "ref_contig", "contig_len"]:
+        raise Untranslatable("to_stable signature %s" % args)
+    rec = args[0]
+    fields = {"contig_id": ("contig", T_STRING), "start": ("s", T_INT), "end": ("e", T_INT)}
+    to_str = _to_string_def(mod, fields)
+    fmt_st, cols = _format_columns(fn, {4, 5, 6, 7, 8})
+    if fmt_st not in fn.body:
+        raise Untranslatable("the format statement is not at the top level of to_stable")
+    at = fn.body.index(fmt_st)
+    pre, post = fn.body[:at], fn.body[at + 1:]
+    # the flag that makes the CIGAR be written reversed: `if <flag> and "cg:Z:" in gaf_line.tags: … reverse_cigar …`
+    flips = [st for st in post if isinstance(st, ast.If) and "reverse_cigar" in "".join(ast.unparse(x) for x in st.body)]
+    flip = _only(flips, "CIGAR reversal")
+    if not (isinstance(flip.test, ast.BoolOp) and isinstance(flip.test.op, ast.And) and len(flip.test.values) >= 2
+            and ast.unparse(flip.test.values[-1]) == "'cg:Z:' in %s.tags" % rec and not flip.orelse):
+        raise Untranslatable("CIGAR reversal test: %s" % ast.unparse(flip.test))
+    flag = flip.test.values[0] if len(flip.test.values) == 2 else ast.BoolOp(op=ast.And(), values=flip.test.values[:-1])
+    attrs = {(rec, "path"): ("path", T_STR), (rec, "path_length"): ("path_length", T_INT), (rec, "path_start"): ("path_start", T_INT),
+             (rec, "path_end"): ("path_end", T_INT), (rec, "strand"): ("strand", T_STRAND)}
+    env = {"nodes": ("Dict", T_STRING, T_SNODE), "ref_contig": ("Set", T_STRING), "contig_len": ("Dict", T_STRING, T_INT),
+           "strand": T_STRAND, "path": T_STR, "path_length": T_INT, "path_start": T_INT, "path_end": T_INT}
+    decl = {"reverse_flag": T_BOOL, "new_total": ("Opt", T_INT), "new_start": ("Opt", T_INT), "gaf_nodes": ("List", T_STR),
+            "node_list": ("List", T_RAWIV), "stable_coord": T_STR, "orient": ("Opt", T_STR), "new_line": T_STR,
+            "out_node": ("List", T_OIV)}
+    tr = _PyLean(mod, fields, attrs, ["tokStep", "mergeStep"])
+    tr.reserved = set(env)
+
+    def final(e, ind):
+        binds = []
+        strand, _ = tr.ex(cols[4], e, binds, T_STRAND)
+        if ast.unparse(cols[4]) != "%s.strand" % rec:
+            raise Untranslatable("column 5 prints %s" % ast.unparse(cols[4]))
+        text, _ = tr.ex(cols[5], e, binds, T_STR)
+        c = [tr.ex(cols[i], e, binds, T_INT)[0] for i in (6, 7, 8)]
+        fl, _ = tr.ex(flag, e, binds, T_BOOL)
+        return tr.wrap(binds, " " * ind, lambda p: "%ssome (%s, (⟨%s, %s, %s, %s, %s⟩ : ConvOut))" % (p, text, strand, c[0], c[1], c[2], fl))
+    # a local variable may not be used under two types: node_list is re-typed by the encoding step only
+    body = tr.blk(pre, env, 2, final, decl)
+    if tr.loop_names or tr.seps is None:
+        raise Untranslatable("to_stable: the two loops / the path split were not found")
+    defs = dict(tr.defs)
+    return ("import Gaftools.Model.ConvText\nimport Gaftools.Gen.MergeNodes\n"
+            "/-! generated by harness/translate.py from gaftools/conversion.py : to_stable up to the twelve-column format statement, statement by\n"
+            "    statement (`none` = the Python raises: KeyError of `nodes[nd]` / `contig_len[…]`, IndexError of `node_list[0]`); `merge_nodes` is\n"
+            "    Gen.mergeNodes — do not edit -/\n"
+            "set_option linter.unusedVariables false\n"
+            "namespace Gaftools.Gen\nopen Gaftools.Gaf Gaftools.Conv Gaftools.ConvText\n\n" + CONV_LOOP_S_PRELUDE + "\n"
+            "/-- the characters `re.split` cuts the path at (each kept as a token) -/\n"
+            "def pathSeps : List Char := %s\n\n"
+            "/-- `StableNode.to_string(orient)` -/\n%s\n\n"
+            "/-- the body of the loop over the path tokens; the state is the tuple of the variables it assigns -/\n%s\n\n"
+            "/-- the body of the loop that merges consecutive nodes; the state is the tuple of the variables it assigns -/\n%s\n\n"
+            "/-- `to_stable` up to the format statement: the path column, and (strand column, columns 7-9, whether the CIGAR is reversed) -/\n"
+            "def toStableS (nodes : String → Option SNode) (ref_contig : List String) (contig_len : String → Option Int)\n"
+            "    (strand : Bool) (path : Str) (path_length path_start path_end : Int) : Option (Str × ConvOut) :=\n%s\n"
+            "end Gaftools.Gen\n" % (_chars("".join(tr.seps)), to_str, defs["tokStep"], defs["mergeStep"], body))
+
+
+GENERATORS["ConvLoopS"] = gen_conv_loop_s
+
+
+# ---------------------------------------------------------------------------------------------------------
 # GFA.find_component / GFA.all_components / GFA.dfs: every statement of the three functions, in source order (C15, C06, C18)
 
 _SEARCH_RESERVED = {"σ", "nb", "Vs", "fuel", "vis", "r", "fun", "let", "if", "then", "else", "match", "with", "at", "from", "have", "show",
@@ -2459,6 +3072,193 @@ def cmpGaf (al1 al2 : Aln) : Option Int := Gaftools.Sort.cmpGaf al1 al2
 end Gaftools.Gen
 """,
 }
+
+FALLBACK["ConvLoopS"] = r"""import Gaftools.Model.ConvText
+import Gaftools.Gen.MergeNodes
+/-! FALLBACK (source construct outside the translator's subset): to_stable up to the format statement as translated from the
+    source the model was written against (hand-checked twin of Gaftools.Conv.toStable / ConvText.parseUnstableSteps / renderSPath) -/
+set_option linter.unusedVariables false
+namespace Gaftools.Gen
+open Gaftools.Gaf Gaftools.Conv Gaftools.ConvText
+
+/-- `list(filter(None, re.split("(c)|(d)…", s)))` for single-character alternatives: every separator as a string of its own,
+    the maximal runs between them, no empty strings -/
+def splitKeepAux (seps : List Char) : Str → Str → List Str
+  | [], cur => if cur.isEmpty then [] else [cur.reverse]
+  | c :: cs, cur =>
+    if seps.contains c then (if cur.isEmpty then [] else [cur.reverse]) ++ [c] :: splitKeepAux seps cs []
+    else splitKeepAux seps cs (c :: cur)
+def splitKeep (seps : List Char) (s : Str) : List Str := splitKeepAux seps s []
+/-- truth value of `None` / a string -/
+def truthy (o : Option Str) : Bool := match o with | none => false | some s => !s.isEmpty
+/-- `l[-1] = v` (IndexError on the empty list) -/
+def setLast {α : Type} (l : List α) (v : α) : Option (List α) := if l.isEmpty then none else some (l.dropLast ++ [v])
+/-- the Bool encoding of an orientation string ('>' = true), as in Gen.mergeNodes -/
+def encOrient (o : Option Str) : Bool := o == some ['>']
+
+/-- the characters `re.split` cuts the path at (each kept as a token) -/
+def pathSeps : List Char := ['>', '<']
+
+/-- `StableNode.to_string(orient)` -/
+def toStr (self : SNode) (orient : Bool) : Str :=
+  (if orient then ['>'] else ['<']) ++ self.contig.toList ++ [':'] ++ decI self.s ++ ['-'] ++ decI self.e
+
+/-- the body of the loop over the path tokens; the state is the tuple of the variables it assigns -/
+def tokStep (nodes : String → Option SNode) (st : (Option Str) × (List (SNode × (Option Str)))) (nd : Str) : Option ((Option Str) × (List (SNode × (Option Str)))) :=
+  let orient : Option Str := st.1
+  let node_list : List (SNode × (Option Str)) := st.2
+  if ((nd == ['>']) || (nd == ['<'])) then
+    let orient : Option Str := (some nd)
+    some (orient, node_list)
+  else
+    if (!truthy orient) then
+      let orient : Option Str := (some ['>'])
+      match nodes (String.ofList nd) with
+      | none => none
+      | some v1 =>
+      let node_list : List (SNode × (Option Str)) := (node_list ++ [(v1, orient)])
+      some (orient, node_list)
+    else
+      match nodes (String.ofList nd) with
+      | none => none
+      | some v2 =>
+      let node_list : List (SNode × (Option Str)) := (node_list ++ [(v2, orient)])
+      some (orient, node_list)
+
+/-- the body of the loop that merges consecutive nodes; the state is the tuple of the variables it assigns -/
+def mergeStep (node_list : List (SNode × Bool)) (st : Str × (List (SNode × Bool))) (i : Nat) : Option (Str × (List (SNode × Bool))) :=
+  let stable_coord : Str := st.1
+  let out_node : List (SNode × Bool) := st.2
+  match out_node.getLast? with
+  | none => none
+  | some v4 =>
+  let n1 : SNode := v4.1
+  match out_node.getLast? with
+  | none => none
+  | some v5 =>
+  let o1 : Bool := v5.2
+  match node_list[(i + 1)]? with
+  | none => none
+  | some v6 =>
+  let n2 : SNode := v6.1
+  match node_list[(i + 1)]? with
+  | none => none
+  | some v7 =>
+  let o2 : Bool := v7.2
+  let node_merge : Option (SNode × Bool) := (Gaftools.Gen.mergeNodes n1 n2 o1 o2)
+  match node_merge with
+  | none => (
+      let stable_coord : Str := (stable_coord ++ (toStr n1 o1))
+      let out_node : List (SNode × Bool) := (out_node ++ [(n2, o2)])
+      some (stable_coord, out_node))
+  | some node_merge =>
+      match setLast out_node node_merge with
+      | none => none
+      | some out_node =>
+      some (stable_coord, out_node)
+
+/-- `to_stable` up to the format statement: the path column, and (strand column, columns 7-9, whether the CIGAR is reversed) -/
+def toStableS (nodes : String → Option SNode) (ref_contig : List String) (contig_len : String → Option Int)
+    (strand : Bool) (path : Str) (path_length path_start path_end : Int) : Option (Str × ConvOut) :=
+  let reverse_flag : Bool := false
+  let new_total : Option Int := none
+  let new_start : Option Int := none
+  let gaf_nodes : List Str := (splitKeep pathSeps path)
+  let node_list : List (SNode × (Option Str)) := []
+  let stable_coord : Str := []
+  let orient : Option Str := none
+  let new_line : Str := []
+  match gaf_nodes.foldlM (tokStep nodes) (orient, node_list) with
+  | none => none
+  | some (orient, node_list) =>
+  let node_list : List (SNode × Bool) := node_list.map (fun x => (x.1, encOrient x.2))
+  match node_list[0]? with
+  | none => none
+  | some v3 =>
+  let out_node : List (SNode × Bool) := [v3]
+  match (List.range (node_list.length - 1)).foldlM (mergeStep node_list) (stable_coord, out_node) with
+  | none => none
+  | some (stable_coord, out_node) =>
+  if (out_node.length == 1) then
+    match out_node[0]? with
+    | none => none
+    | some v9 =>
+    if (ref_contig.contains v9.1.contig) then
+      match out_node[0]? with
+      | none => none
+      | some v10 =>
+      if (v10.2 == false) then
+        let reverse_flag : Bool := true
+        let strand : Bool := false
+        match out_node[0]? with
+        | none => none
+        | some v11 =>
+        let new_start : Option Int := (some ((v11.1.s + path_length) - path_end))
+        match out_node[0]? with
+        | none => none
+        | some v12 =>
+        let stable_coord : Str := v12.1.contig.toList
+        match contig_len (String.ofList stable_coord) with
+        | none => none
+        | some v13 =>
+        let new_total : Option Int := (some v13)
+        match new_total with
+        | none => none
+        | some v14 =>
+        match new_start with
+        | none => none
+        | some v15 =>
+        some (stable_coord, (⟨strand, v14, v15, ((v15 + path_end) - path_start), reverse_flag⟩ : ConvOut))
+      else
+        match out_node[0]? with
+        | none => none
+        | some v16 =>
+        let new_start : Option Int := (some (v16.1.s + path_start))
+        match out_node[0]? with
+        | none => none
+        | some v17 =>
+        let stable_coord : Str := v17.1.contig.toList
+        match contig_len (String.ofList stable_coord) with
+        | none => none
+        | some v18 =>
+        let new_total : Option Int := (some v18)
+        match new_total with
+        | none => none
+        | some v19 =>
+        match new_start with
+        | none => none
+        | some v20 =>
+        some (stable_coord, (⟨strand, v19, v20, ((v20 + path_end) - path_start), reverse_flag⟩ : ConvOut))
+    else
+      match out_node.getLast? with
+      | none => none
+      | some v21 =>
+      let stable_coord : Str := (stable_coord ++ (toStr v21.1 v21.2))
+      let new_start : Option Int := (some path_start)
+      let new_total : Option Int := (some path_length)
+      match new_total with
+      | none => none
+      | some v22 =>
+      match new_start with
+      | none => none
+      | some v23 =>
+      some (stable_coord, (⟨strand, v22, v23, ((v23 + path_end) - path_start), reverse_flag⟩ : ConvOut))
+  else
+    match out_node.getLast? with
+    | none => none
+    | some v24 =>
+    let stable_coord : Str := (stable_coord ++ (toStr v24.1 v24.2))
+    let new_start : Option Int := (some path_start)
+    let new_total : Option Int := (some path_length)
+    match new_total with
+    | none => none
+    | some v25 =>
+    match new_start with
+    | none => none
+    | some v26 =>
+    some (stable_coord, (⟨strand, v25, v26, ((v26 + path_end) - path_start), reverse_flag⟩ : ConvOut))
+end Gaftools.Gen
+"""
 
 if __name__ == "__main__":
     import json
